@@ -652,6 +652,10 @@ func genCli(w *bufio.Writer, r *rand.Rand, n int) {
 				F = 1 + r.Int63n(2*ln-1)
 			}
 		}
+		if F == 0 && r.Intn(2) == 0 {
+			// random placement with exactly one possible place
+			s = 3*ln + 1
+		}
 		preset := int64(0)
 		if r.Intn(6) == 0 {
 			preset = int64(1 + r.Intn(6))
